@@ -5369,9 +5369,13 @@ class NetCDFWrite(IOWrite):
 
         if external is not None and not g["dry_run"]:
             # The external file is always overwritten, so it must not
-            # be a file that any of the output constructs still uses
+            # be a file that any of the output constructs still
+            # uses. It is written by a nested call of `write`, which
+            # expands the name it is given once more, so the name
+            # checked here is the name that will be opened there.
+            expanded = os.path.expanduser(os.path.expandvars(external))
             self._check_not_source_file(
-                os.path.expanduser(os.path.expandvars(external)), fields
+                os.path.expanduser(os.path.expandvars(expanded)), fields
             )
 
         g["filename"] = filename
